@@ -35,12 +35,17 @@ IDXM = ("std::ops::IndexMut::index_mut",)
 
 
 class _P(Policy):
+    """Private methods of the expression type itself are inlined (compile may be split into steps); everything else,
+    in particular the ordering functions and the printer, stays a call."""
     loop_mode = "widen"
-    max_depth = 3
-    max_paths = 6000
+    max_depth = 4
+    max_paths = 8000
 
     def inline(self, fn, args, interp, path):
-        return False
+        b = interp.callee_body(fn)
+        root = path.frames[0].body
+        return b is not None and b.get("kind") == "AssocFn" and b.get("impl_self_ty") and b.get("impl_self_ty") == root.get("impl_self_ty") \
+            and not str(b.get("vis", "")).startswith("Public") and b.get("name") != root.get("name")
 
 
 def _strip_kind(v):
@@ -94,9 +99,9 @@ def analyse(fb, body):
         return None, "shape: %s" % [(p.status, p.note) for p in bad][:2], allp
     gen = {}
     for p in allp:
-        for t in loops.trips(p, body["path"], 0):
+        for t in loops.all_trips(p):
             if t.general and t.post is not None:
-                key = (t.header, tuple((rel.cstr(d[1]), str(d[2])) for d in t.decisions),
+                key = ((t.body_path, t.header), tuple((rel.cstr(d[1]), str(d[2])) for d in t.decisions),
                        tuple((e[0], show(e[1])[:200] if not isinstance(e[1], str) else e[1]) for e in t.events if e[0] in ("write_opaque", "call")))
                 gen.setdefault(key, t)
     # the folding loop: its trips test the kind of two adjacent nodes
@@ -109,7 +114,7 @@ def analyse(fb, body):
                 if na:
                     idxs.append(na[1])
         if idxs:
-            heads.setdefault(t.header, []).append((t, idxs))
+            heads.setdefault((t.body_path, t.header), []).append((t, idxs))
     cand = [h for h, ts in heads.items() if any(any(_plus1(a, b) for a in ix for b in ix) for _, ix in ts)]
     if len(cand) != 1:
         return None, "no unique loop testing two adjacent nodes (%s)" % sorted(heads), allp
@@ -320,7 +325,7 @@ def check_loop(chk, fb, body, flavour):
             if len(tr) != 1:
                 miss.append("remove the folded operator's entry from the per-operator table consulted by the fold condition")
         # positions right of the fold move left by one: the nested loop's trips
-        if not shifts_positions(s, allp, body):
+        if not shifts_positions(s, allp, body, fb):
             miss.append("decrement every remembered position that is greater than the fold position")
         if miss:
             chk.violation("R02.4", "bookkeeping:%s" % flavour, "%s: a fold does not %s" % (name, "; ".join(miss)), where)
@@ -375,9 +380,9 @@ def regroup_guard(s, fb):
 def table_definition_ok(fb, body, allp, table, field):
     """The per-operator table holds (priority, operator id, is_commutative) of every operator, `field` being the flag."""
     for p in allp:
-        for t in loops.trips(p, body["path"], 0):
+        for t in loops.all_trips(p):
             lu = loops.loop_unknown(table)
-            if lu is None or t.header != lu[2] or lu[1] not in t.pre or t.general:
+            if lu is None or t.header != lu[2] or t.body_path.split("::")[-1] != lu[0] or lu[1] not in t.pre or t.general:
                 continue
             v = t.pre[lu[1]]
             for s_ in subterms(v):
@@ -397,12 +402,13 @@ def table_definition_ok(fb, body, allp, table, field):
     return False, "table definition not found"
 
 
-def shifts_positions(s, allp, body):
-    """Inside the folding trip a nested loop visits the remembered positions and decrements exactly those > pos."""
+def shifts_positions(s, allp, body, fb=None):
+    """Inside the folding trip the remembered positions are visited and exactly those > pos are decremented: a nested
+    loop (its own general trip), or `iter_mut().filter(|x| **x > pos).for_each(|x| *x -= 1)`."""
     seen_dec = seen_keep = False
     for p in allp:
-        for t in loops.trips(p, body["path"], 0):
-            if t.header == s.t.header or not t.general or t.post is None:
+        for t in loops.all_trips(p):
+            if (t.body_path, t.header) == (s.t.body_path, s.t.header) or not t.general or t.post is None:
                 continue
             F = rel.Facts(type("P", (), {"decisions": t.decisions})())
             writes = [e for e in t.events if e[0] == "write_opaque"]
@@ -416,7 +422,39 @@ def shifts_positions(s, allp, body):
                 # item <= pos => untouched
                 if b.key() == s.pos.key() and "Iterator::next(" in show(a) and not writes:
                     seen_keep = True
-    return seen_dec and seen_keep
+    if seen_dec and seen_keep:
+        return True
+    # iterator idiom inside the folding trip
+    if fb is None:
+        return False
+    for e in s.t.events:
+        if e[0] != "call" or e[1] != "std::iter::Iterator::for_each" or len(e[2]) != 2:
+            continue
+        src, dec = rel.canon(e[2][0]), e[2][1]
+        if not (isinstance(src, App) and src.fn == "std::iter::Iterator::filter" and len(src.args) == 2 and isinstance(src.args[1], Closure) and isinstance(dec, Closure)):
+            continue
+        if "iter_mut(" not in rel.cstr(src.args[0]):
+            continue
+        fcb, dcb = fb.bodies.get(src.args[1].path), fb.bodies.get(dec.path)
+        if fcb is None or dcb is None:
+            continue
+        fps = [q for q in Interp(fb, _P()).run(fcb, [src.args[1], Sym("item")]) if q.status == "return"]
+        dps = [q for q in Interp(fb, _P()).run(dcb, [dec, Sym("item")]) if q.status == "return"]
+        if len(fps) != 1 or len(dps) != 1:
+            continue
+        r = rel.canon(fps[0].result)
+        good_f = isinstance(r, App) and r.fn in rel._CMP and len(r.args) == 2
+        if good_f:
+            op = rel._CMP[r.fn]
+            x, y = r.args
+            if op in (">", ">="):
+                x, y, op = y, x, {">": "<", ">=": "<="}[op]
+            good_f = op == "<" and rel.cstr(x) == rel.cstr(s.pos) and rel.cstr(y) == "item"
+        wr = [w for w in dps[0].events if w[0] == "write_opaque"]
+        good_d = len(wr) == 1 and rel.cstr(wr[0][1]) == "item" and rel.cstr(wr[0][3]) == "binop:Sub(item, 1_usize)"
+        if good_f and good_d:
+            return True
+    return False
 
 
 def check_after(chk, fb, body, flavour, info):
@@ -495,7 +533,7 @@ def run(ctx):
     seen = {"num": 0, "other": 0}
     ok6 = True
     for p in allp:
-        for t in loops.trips(p, b["path"], 0):
+        for t in loops.all_trips(p):
             if not t.general or t.post is None:
                 continue
             tags = [(rel.cstr(d[1]), d[2]) for d in t.decisions if isinstance(d[1], App) and d[1].fn == "discr" and ".kind(" in rel.cstr(d[1]) and "Index::index" not in rel.cstr(d[1])]
